@@ -1,7 +1,6 @@
 package format //nolint:revive
 
 import (
-	"bytes"
 	"encoding/base64"
 	"fmt"
 	"strconv"
@@ -38,7 +37,7 @@ func (f *H265) unmarshal(ctx *unmarshalContext) error {
 			}
 
 			// some cameras ship parameters with Annex-B prefix
-			f.VPS = bytes.TrimPrefix(f.VPS, []byte{0, 0, 0, 1})
+			f.VPS = trimAnnexBPrefixes(f.VPS)
 
 		case "sprop-sps":
 			var err error
@@ -48,7 +47,7 @@ func (f *H265) unmarshal(ctx *unmarshalContext) error {
 			}
 
 			// some cameras ship parameters with Annex-B prefix
-			f.SPS = bytes.TrimPrefix(f.SPS, []byte{0, 0, 0, 1})
+			f.SPS = trimAnnexBPrefixes(f.SPS)
 
 			var spsp h265.SPS
 			err = spsp.Unmarshal(f.SPS)
@@ -64,7 +63,7 @@ func (f *H265) unmarshal(ctx *unmarshalContext) error {
 			}
 
 			// some cameras ship parameters with Annex-B prefix
-			f.PPS = bytes.TrimPrefix(f.PPS, []byte{0, 0, 0, 1})
+			f.PPS = trimAnnexBPrefixes(f.PPS)
 
 			var ppsp h265.PPS
 			err = ppsp.Unmarshal(f.PPS)
